@@ -276,6 +276,8 @@ pub fn closure<P: Proto>(w: &mut ClientWorld<P>, cfg: &Cfg) {
     if !w.connected() {
         w.do_step(cfg, &CAct::Reconnect { sp: true });
     }
+    let mut last_left = usize::MAX;
+    let mut stuck = false;
     for _ in 0..64 {
         if w.is_dead() {
             return;
@@ -284,15 +286,21 @@ pub fn closure<P: Proto>(w: &mut ClientWorld<P>, cfg: &Cfg) {
         if !h.connected {
             return;
         }
-        if h.pending_pubs.is_empty() && h.pending_rels.is_empty() && h.pending_other == 0 {
+        let left = h.pending_pubs.len() + h.pending_rels.len() + h.pending_other;
+        if left == 0 {
             break;
         }
-        if h.collision.is_some() && (w.mon.unacked_on_wire() > 0 || w.mon.open_rels()) {
-            // the default broker acknowledges in order, which resolves the collision
+        if (h.collision.is_some() || stuck) && (w.mon.unacked_on_wire() > 0 || w.mon.open_rels()) {
+            // the default broker acknowledges in order, which resolves a collision and lets a
+            // client go on that waits for room in a window the new connection made smaller
+            // (acknowledgements are the broker's doing, not "user action")
             w.do_step(cfg, &CAct::AckOldest);
+            stuck = false;
         } else {
             w.do_step(cfg, &CAct::T(cfg.throttle_ms.max(1) as u32));
+            stuck = left == last_left;
         }
+        last_left = left;
     }
     let h = w.held();
     w.mon.check_retransmitted(&h);
